@@ -99,6 +99,9 @@ func checkC02(c *Ctx) (int, error) {
 	c.ev.Level = "model_checking"
 	c.ev.Assumptions = []string{"block structures, code shapes, token classes and header encodings are drawn by TLC from StreamGen (seeded simulation over the legal descriptor space); concrete code lengths, symbols and payloads are seeded samples",
 		"a descriptor's predicted verdict is cross-checked against compress/flate and the reference inflater before use"}
+	if err := c.readerModels(); err != nil {
+		return 0, err
+	}
 	rng := rand.New(rand.NewSource(c.Seed))
 	num, nEnc := 600, 60
 	if c.Tier == "thorough" {
@@ -168,6 +171,9 @@ func checkC03(c *Ctx) (int, error) {
 	c.ev.Level = "model_checking"
 	c.ev.Assumptions = []string{"fault kinds x position (first / later block) x fresh / reused Reader are enumerated through StreamGen descriptors (TLC simulation, every kind present in every run); truncation at EVERY byte of the small streams; random and mutated byte strings are seeded samples",
 		"'a byte a reference inflater also produces': the permissive RFC 1951 reference inflater of the harness; accepted final results are bounded below by compress/flate and above by the reference (DESIGN 5, C03)"}
+	if err := c.readerModels(); err != nil {
+		return 0, err
+	}
 	rng := rand.New(rand.NewSource(c.Seed))
 	num, nMut, nTrunc := 700, 1500, 6
 	if c.Tier == "thorough" {
@@ -288,6 +294,9 @@ func checkC18(c *Ctx) (int, error) {
 		"the compressor half of C18 ('at every level the output satisfies all other properties') is decided by the writer checks, which run every case at every level"}
 	if len(c.Levels) < 2 {
 		return 0, fmt.Errorf("this host can run only one acceleration level; C18 cannot be decided here")
+	}
+	if err := c.readerModels(); err != nil {
+		return 0, err
 	}
 	rng := rand.New(rand.NewSource(c.Seed))
 	num, nEnc, nMut := 300, 40, 600
